@@ -216,3 +216,19 @@ _add("C01", "text", "The juniper profile (flat `set` / `delete` lines) is judged
 _add("C01", "note", "Block-structured vendors and juniper; nokia and routeros not covered.", replace="Block-structured vendors only.")
 _add("C20", "text", "History.tla models four per-process caches (rulebooks, compiled row regexps, compiled ACLs, the ordering rulebook an Orderer extends) with two kinds of protection each job relies on "
      "(a key fine enough to tell jobs apart; operations working on private copies); five regression instances, one per protection switched off, must violate determinism or the cache frame condition.")
+# ---- round 5
+_add("C01", "text", "A second flattening profile, ribbon (own vendor class choosing the default diff functions), and catalogue entries `rewrite-sandwich` (%rewrite > ordinary rule > %rewrite) and `slash-key` (a placeholder whose own regex and keys contain slashes).")
+_add("C01", "note", "Block-structured vendors, juniper and ribbon; nokia and routeros not covered.", replace="Block-structured vendors and juniper; nokia and routeros not covered.")
+_add("C04", "text", "The formatter is the one the box's model string resolves to (registry.match over a menu of real model spellings per family); block headers that are syntax of ANOTHER family (address-family, xpl ..., route-policy) appear as ordinary blocks followed by rows at their own level.")
+_add("C05", "text", "A text refused with any other exception than ParserError is rejected as such.")
+_add("C06", "text", "Words that merely begin with the vendor's negation word (`node`, `undox`) occur in ACL rules and rows, with a targeted tier holding the plain and the negated line.")
+_add("C07", "text", "A tier of placeholders whose regex contains slashes (interface names) goes through the bare compiler and the patching / ACL / ordering compilers.")
+_add("C08", "technique", "; documented device dependencies of the shipped huawei.order (ShippedDeps.tla) judged on real patches")
+_add("C08", "text", "An %order_reverse rule written without the negation word pins the positive-text removal command of a negated line. ShippedDeps.tla lists fifteen dependencies the comments of huawei.order document (an object is created before and removed after what refers to it); real Huawei patches holding both commands of a fact (three models, both input orders, with bystanders) must send them in that order.")
+_add("C09", "text", "Every other call passes do_finalize / do_commit by position (the public signature). For models that edit a candidate configuration (Huawei CE / NE, Arista, IOS-XR, OcNOS) a commit command must follow the last patch command when committing is enabled (DeploySession.CommitSent).")
+_add("C10", "text", "Parent rules `interfaces`, `interface-range` (protected by the built-in cant_delete default) and `interfac`, `iface` (not) are shared by two generators.")
+_add("C15", "technique", "; two-ended lookup model (MC_MeshEnds) with a regression instance")
+_add("C15", "text", "Same-tier pairs whose names fit both templates of a rule (the rule applies in both orientations, handler data depends on which device is left) and IPv6 addresses written non-canonically (literal table of canonical texts). MC_MeshEnds: each end looks the rule up in both orientations; Mirrored holds, and is violated when an end stops after the first fitting orientation.")
+_add("C17", "text", "Blocks also hold explicit companion lines handled by vendor-specific diff logics (VRF binding, address, description, mtu).")
+_add("C19", "text", "Generators may decline the device (supports_device() overridden while path() names a file: FileDeploy.Active) and may set their priority per instance before Entire.__init__.")
+_add("C20", "text", "Further jobs: trees holding rows that `!` rules describe (top level and inside a block), and two boxes of one model with different software versions.")
